@@ -156,6 +156,18 @@ def dyn_name(n, env):
     return None
 
 
+def call_name(c):
+    """the callee's name; `driver-><slot>` for a call through a PNC_driver function pointer"""
+    if c.get("fn"):
+        return c["fn"]
+    fx = strip(c.get("fnx"))
+    if isinstance(fx, dict) and fx.get("k") == "un" and fx.get("op") == "*":
+        fx = strip(fx["e"])
+    if isinstance(fx, dict) and fx.get("k") == "mem" and fx.get("rec") == "PNC_driver":
+        return "driver->" + fx["f"]
+    return None
+
+
 def _ptr_value(n, env):
     """("P", array, index) when the expression is a variable holding a modelled pointer into an array"""
     n = strip(n)
@@ -190,8 +202,10 @@ def evs(n, env, events=None):
             return env[lv_slot(inner["a"], env)]
         if inner.get("k") == "un" and inner.get("op") in ("post++", "post--", "pre++", "pre--"):
             return env[lv_slot(inner["e"], env)]
-        if inner.get("k") == "call" and inner.get("fn") not in env.get("$impl", {}):
-            return env.get("$ret:%s" % inner.get("fn"), 0)
+        if inner.get("k") == "call" and call_name(inner) not in env.get("$impl", {}):
+            return env.get("$ret:%s" % call_name(inner), 0)
+        if inner.get("k") == "call" and ("$done:" + canon(inner)) in env:
+            return env.pop("$done:" + canon(inner))        # its own element ran the $impl already: one call, one effect
     n = strip_pre(n)
     if not isinstance(n, dict):
         raise Unsupported("empty")
@@ -213,6 +227,9 @@ def evs(n, env, events=None):
             d = 1 if "++" in op else -1
             env[nm] = ("P", old[1], old[2] + d) if isinstance(old, tuple) and old and old[0] == "P" else old + d
             return old if op.startswith("post") else env[nm]
+        if op == "&":
+            # address of a scalar / element: a token an $impl can store through (env[token[1]] = value)
+            return ("A", lv_slot(n["e"], env))
         v = evs(n["e"], env, events)
         if op == "!":
             return 0 if v else 1
@@ -293,12 +310,12 @@ def evs(n, env, events=None):
                 args.append(None)
         if events is not None:
             events.append((n.get("fn"), args, n.get("l")))
-        impl = env.get("$impl", {}).get(n.get("fn"))
+        impl = env.get("$impl", {}).get(call_name(n))
         if impl is not None:
             if any(a is None for a in args):
-                raise Unsupported("argument of %s" % n.get("fn"))
+                raise Unsupported("argument of %s" % call_name(n))
             return impl(*args)
-        return env.get("$ret:%s" % n.get("fn"), 0)
+        return env.get("$ret:%s" % call_name(n), 0)
     if k == "sizeof":
         return n.get("cv", 0)
     raise Unsupported("expression kind %s" % k)
@@ -348,11 +365,11 @@ def run_region(fn, start, stop_blocks, env, events=None, max_steps=5000, call_ho
                     events.append((e.get("fn"), args, e.get("l")))
                 if call_hook:
                     call_hook(e, args, env)
-                impl = env.get("$impl", {}).get(e.get("fn"))
+                impl = env.get("$impl", {}).get(call_name(e))
                 if impl is not None and not call_hook:
                     if any(a is None for a in args):
                         raise Unsupported("argument of %s" % e.get("fn"))
-                    impl(*args)
+                    env["$done:" + canon(e)] = impl(*args)
             elif k in ("asg", "un"):
                 try:
                     evs(e, env, events)
